@@ -54,4 +54,6 @@ VARIANTS = [
     {'id': 'c03-classstate-vocab-item-store', 'property': 'C03', 'kind': 'break', 'expect_rule': 'R03.1d', 'expect_key': 'shared-class-state:combo_dictionary', 'edits': [{'file': 'opendsm/eemeter/models/daily/model.py', 'old': '    _data_df_name = "df"\n\n    def __init__(\n        self,\n        model: str = "current",', 'new': '    _data_df_name = "df"\n    combo_dictionary = {"su": "summer", "sh": "shoulder", "wi": "winter", "fw": [1, 2, 3, 4, 5, 6, 7]}\n\n    def __init__(\n        self,\n        model: str = "current",'}, {'file': 'opendsm/eemeter/models/daily/model.py', 'old': '        self.combo_dictionary = {\n            "su": "summer",\n            "sh": "shoulder",\n            "wi": "winter",\n            "fw": [n + 1 for n in n_week],\n            "wd": [n + 1 for n in n_week if day_dict[n+1] == "weekday"],\n            "we": [n + 1 for n in n_week if day_dict[n+1] == "weekend"],\n        }\n', 'new': '        self.combo_dictionary["wd"] = [n + 1 for n in n_week if day_dict[n+1] == "weekday"]\n        self.combo_dictionary["we"] = [n + 1 for n in n_week if day_dict[n+1] == "weekend"]\n'}]},
     {'id': 'c03-classstate-vocab-alias-update', 'property': 'C03', 'kind': 'break', 'expect_rule': 'R03.1d', 'expect_key': 'shared-class-state:combo_dictionary', 'edits': [{'file': 'opendsm/eemeter/models/daily/model.py', 'old': '    _data_df_name = "df"\n\n    def __init__(\n        self,\n        model: str = "current",', 'new': '    _data_df_name = "df"\n    _COMBO = {"su": "summer", "sh": "shoulder", "wi": "winter"}\n\n    def __init__(\n        self,\n        model: str = "current",'}, {'file': 'opendsm/eemeter/models/daily/model.py', 'old': '        self.combo_dictionary = {\n            "su": "summer",\n            "sh": "shoulder",\n            "wi": "winter",\n            "fw": [n + 1 for n in n_week],\n            "wd": [n + 1 for n in n_week if day_dict[n+1] == "weekday"],\n            "we": [n + 1 for n in n_week if day_dict[n+1] == "weekend"],\n        }\n', 'new': '        self.combo_dictionary = self._COMBO\n        self.combo_dictionary.update({"fw": [n + 1 for n in n_week], "wd": [n + 1 for n in n_week if day_dict[n+1] == "weekday"], "we": [n + 1 for n in n_week if day_dict[n+1] == "weekend"]})\n'}]},
     {'id': 'c03-benign-classstate-vocab-copied', 'property': 'C03', 'kind': 'benign', 'edits': [{'file': 'opendsm/eemeter/models/daily/model.py', 'old': '    _data_df_name = "df"\n\n    def __init__(\n        self,\n        model: str = "current",', 'new': '    _data_df_name = "df"\n    _COMBO = {"su": "summer", "sh": "shoulder", "wi": "winter"}\n    _DAY_OPTIONS = [["wd", "we"]]\n\n    def __init__(\n        self,\n        model: str = "current",'}, {'file': 'opendsm/eemeter/models/daily/model.py', 'old': '        self.day_options = [["wd", "we"]]\n', 'new': '        self.day_options = self._DAY_OPTIONS\n'}, {'file': 'opendsm/eemeter/models/daily/model.py', 'old': '        self.combo_dictionary = {\n            "su": "summer",\n            "sh": "shoulder",\n            "wi": "winter",\n            "fw": [n + 1 for n in n_week],\n            "wd": [n + 1 for n in n_week if day_dict[n+1] == "weekday"],\n            "we": [n + 1 for n in n_week if day_dict[n+1] == "weekend"],\n        }\n', 'new': '        self.combo_dictionary = dict(self._COMBO)\n        self.combo_dictionary.update({"fw": [n + 1 for n in n_week], "wd": [n + 1 for n in n_week if day_dict[n+1] == "weekday"], "we": [n + 1 for n in n_week if day_dict[n+1] == "weekend"]})\n'}]},
+    {'id': 'c03-kernel-compiled-parallel', 'property': 'C03', 'kind': 'break', 'expect_rule': 'R03.2', 'expect_key': 'sequential-kernel', 'file': 'opendsm/eemeter/models/daily/base_models/full_model.py', 'old': '@numba.jit(nopython=True, error_model="numpy", cache=True)\ndef full_model(', 'new': '@numba.jit(nopython=True, error_model="numpy", cache=True, parallel=True)\ndef full_model('},
+    {'id': 'c03-benign-kernel-parallel-false', 'property': 'C03', 'kind': 'benign', 'file': 'opendsm/eemeter/models/daily/base_models/full_model.py', 'old': '@numba.jit(nopython=True, error_model="numpy", cache=True)\ndef full_model(', 'new': '@numba.jit(nopython=True, error_model="numpy", cache=True, parallel=False)\ndef full_model('},
 ]
